@@ -188,6 +188,10 @@ impl Check for C06 {
             out.count("answers", real.answers.len() as u64);
             out.count("bfs_vs_ref_compared", 1);
             let mut bad: Option<(String, String)> = None;
+            if cut_at_cap(real.ended, real.answers.len(), true, rans.len()) {
+                out.count("comparisons_skipped_answer_cap", 1);
+                return out;
+            }
             if let Cmp::Different(why) = compare_multisets(&real.answers, &rans, &uni) {
                 let sig = if real.answers.len() < rans.len() { "interleaving search lost answers" } else if real.answers.len() > rans.len() { "interleaving search invented or duplicated answers" } else { "interleaving search answers differ from the reference" };
                 bad = Some((sig.to_string(), format!("bfs vs reference: {} | bfs {} | reference {}", why, show_answers(&real.answers), show_answers(&rans))));
@@ -199,7 +203,9 @@ impl Check for C06 {
                 let dreal = run_query(&dprog, &cfg);
                 if usable(&dreal, &mut out, &dprog, "dfs query") {
                     out.count("bfs_vs_dfs_compared", 1);
-                    if let Cmp::Different(why) = compare_multisets(&real.answers, &dreal.answers, &uni) {
+                    if cut_at_cap(real.ended, real.answers.len(), dreal.ended, dreal.answers.len()) {
+                        out.count("comparisons_skipped_answer_cap", 1);
+                    } else if let Cmp::Different(why) = compare_multisets(&real.answers, &dreal.answers, &uni) {
                         if bad.is_none() {
                             bad = Some(("interleaving and depth-first search disagree on the answer multiset".to_string(), format!("bfs vs dfs: {} | bfs {} | dfs {}", why, show_answers(&real.answers), show_answers(&dreal.answers))));
                         }
